@@ -1147,6 +1147,8 @@ func main() {
 	nbatch := flag.Int("batchrd", 40, "number of batchrd scenarios (Batch reads on real message sets, forged frames in the values)")
 	child := flag.String("child", "", "internal: run one scenario of this family in this process")
 	sub := flag.Int64("sub", 0, "internal: sub-seed of the child scenario")
+	ntail := flag.Int("tail", 30, "number of trtail scenarios (fetch record set with a truncated last batch, then reuse of the pooled connection)")
+	npoolx := flag.Int("poolx", 24, "number of poolx scenarios (decompression buffer pool across Conns)")
 	nlate := flag.Int("late", 24, "number of trlate scenarios (deadline mid-exchange, late answer, followers)")
 	flag.Parse()
 
@@ -1157,6 +1159,10 @@ func main() {
 
 	if *child == "batchrd" {
 		batchRdChild(*sub)
+		return
+	}
+	if *child == "poolx" {
+		poolXChild(*sub)
 		return
 	}
 
@@ -1207,6 +1213,12 @@ func main() {
 	}
 	for i := 0; i < *nbatch; i++ {
 		add(genBatchRd(r))
+	}
+	for i := 0; i < *ntail; i++ {
+		add(genTRTail(r))
+	}
+	for i := 0; i < *npoolx; i++ {
+		add(genPoolX(r))
 	}
 
 	// big scenarios first, results printed in id order
